@@ -252,6 +252,7 @@ def faultReasons (mk : List Nat → List Exp) (runs : List (List Nat × List Str
 def tagsOf (kind : String) (fault : String) (nrec : Int) (comments : String) (es : List (List Exp)) : String :=
   " " ++ kind ++ " fault-" ++ faultKind fault
     ++ (if comments = "-" then "" else " comments")
+    ++ (if (comments.splitOn "eof:").length > 1 then " eof-comment" else "")
     ++ (if nrec = 0 then " empty-file" else "")
     ++ (if es.any (fun l => l.any fun e => match e.res with | .err _ => true | _ => false) then " err-line" else "")
     ++ (if es.any (fun l => l.any fun e => match e.res with | .unspec => true | _ => false) then " unspec-line" else "")
